@@ -349,6 +349,67 @@ class SourceFile:
         return cands[0]
 
 
+class DerivedSource:
+    """a SourceFile whose text went through a line-preserving normalisation (N3)"""
+    def __init__(self, base, src):
+        self.rel = base.rel
+        self.src = src
+        self.mask = mask_source(src)
+        self.items = scan_items(self.src, self.mask, 0, len(self.src))
+        self.line_starts = [0]
+        for m in re.finditer("\n", self.src):
+            self.line_starts.append(m.end())
+        if len(self.line_starts) != len(base.line_starts):
+            raise ExtractError("%s: N3 changed the line structure" % base.rel)
+    line_of = SourceFile.line_of
+    find_fn = SourceFile.find_fn
+    find_item = SourceFile.find_item
+
+
+def apply_n3(sf, it, out, where):
+    """N3:  E.into_iter().map(|mut p| { S*; R }).collect::<Vec<_>>()
+        ->  { let mut n3_acc = Vec::new(); for mut p in E { S*; n3_acc.push(R); } n3_acc }
+    inside the body of item `it`; newlines are kept so that line numbers do not move."""
+    src, mask = sf.src, sf.mask
+    body = mask[it.body_open:it.end]
+    m = re.search(r"(\b\w+)(\s*)\.into_iter\(\)(\s*)\.map\(\|(mut\s+\w+)\|(\s*)\{", body)
+    if not m:
+        raise ExtractError("%s: N3 shape not found" % where)
+    a = it.body_open + m.start()
+    brace = it.body_open + m.end() - 1
+    close = match_close(mask, brace)
+    tail = re.match(r"\)(\s*)\.collect::<Vec<_>>\(\)", mask[close + 1:])
+    if not tail:
+        raise ExtractError("%s: N3: closure is not followed by .collect::<Vec<_>>()" % where)
+    end = close + 1 + tail.end()
+    # final expression R of the closure body: text after the last `;` at depth 0
+    inner_lo, inner_hi = brace + 1, close
+    depth, last_semi = 0, inner_lo - 1
+    for k in range(inner_lo, inner_hi):
+        ch = mask[k]
+        if ch in "([{":
+            depth += 1
+        elif ch in ")]}":
+            depth -= 1
+        elif ch == ";" and depth == 0:
+            last_semi = k
+    r_lo = last_semi + 1
+    while r_lo < inner_hi and mask[r_lo].isspace():
+        r_lo += 1
+    r_hi = inner_hi
+    while r_hi > r_lo and mask[r_hi - 1].isspace():
+        r_hi -= 1
+    if r_lo >= r_hi:
+        raise ExtractError("%s: N3: closure has no final expression" % where)
+    nl = lambda t: "".join(ch for ch in t if ch == "\n")
+    head = "{ let mut n3_acc = Vec::new(); for %s in %s%s%s{" % (m.group(4), m.group(1), nl(m.group(2) + m.group(3)), nl(m.group(5)))
+    new = (src[:a] + head + src[brace + 1:r_lo] + "n3_acc.push(" + src[r_lo:r_hi] + ");" + src[r_hi:close]
+           + "}" + nl(tail.group(1)) + " n3_acc }" + src[end:])
+    out.count("N3", "%s: %s.into_iter().map(|%s| ..).collect() -> for loop" % (where, m.group(1), m.group(4)))
+    d = DerivedSource(sf, new)
+    return d
+
+
 _files = {}
 
 
@@ -711,6 +772,9 @@ def assemble_fn(spec, bundle, out, canary=False):
         return cid
 
     if spec.region is not None:
+        if spec.opts.get("n3"):
+            sf = apply_n3(sf, it, out, where)
+            it = sf.find_fn(spec.path)
         return assemble_region(spec, bundle, out, sf, it, canary)
 
     # ---- signature: return naming
